@@ -58,6 +58,9 @@ CONSTANTS Peer, Repo,
           QueueMax,      \* MAX_FETCH_QUEUE_SIZE
           MaxTasks,      \* bound: number of Io::Fetch emitted
           MaxOps,        \* bound: behaviour length
+          RetryExact,    \* BOOLEAN: every wake-up re-dials every disconnected persistent peer (true while
+                         \* sessions have made few attempts: the back-off 2^attempts s stays below the wake-up
+                         \* interval); FALSE: a wake-up re-dials any subset of them (timer-dependent)
           SyncTask,      \* BOOLEAN: model the sync task (off in the liveness instance: it creates
                          \* fetches without bound)
           Dev
@@ -227,11 +230,16 @@ FetchCmd(r, p) ==
 
 \* an inventory announcement of connected peer p listing (only) the seeded repository r, which we do
 \* not have: the routing table is synchronised with the announced inventory -- p seeds r and
-\* nothing else -- and r is fetched from p (no result channel)
+\* nothing else -- and, IF that changed anything, r is fetched from p (no result channel).  An entry
+\* that is already there counts as changed when the announcement's timestamp is newer than the
+\* entry's (which a successful fetch stamps with the local clock): the model leaves that open.
 AnnFetch(r, p) ==
     /\ Len(tasks) < MaxTasks
     /\ p \in conn /\ wire[p] # "none"
-    /\ Set(Fetch(St, conn, sessions, r, p, FALSE))
+    /\ LET changed == <<r, p>> \notin routing \/ \E x \in routing : x[2] = p /\ x[1] # r IN
+       \E trigger \in (IF changed THEN {TRUE} ELSE BOOLEAN) :
+           IF trigger THEN Set(Fetch(St, conn, sessions, r, p, FALSE))
+           ELSE UNCHANGED <<sfetch, queue, fetching, tasks, live>>
     /\ routing' = IF SyncTask THEN {x \in routing : x[2] # p} \cup {<<r, p>>} ELSE routing
     /\ applied' = <<>>
     /\ Log(<<"annfetch", r, p>>)
@@ -291,8 +299,10 @@ Wake ==
          THEN \E ord \in GroupedPerms(SyncPairs(conn)) : Set(FetchAll(s1, conn, sessions, ord))
          ELSE Set(s1)
     /\ syncIn' = IF SyncTask THEN 1 - syncIn ELSE syncIn
-    /\ st' = [p \in Peer |-> IF st[p] = "disconnected" THEN "initial" ELSE st[p]]
-    /\ dial' = [p \in Peer |-> dial[p] \/ st[p] = "disconnected"]        \* reconnect(): Io::Connect
+    /\ LET D == {p \in Peer : st[p] = "disconnected"} IN
+       \E R \in (IF RetryExact THEN {D} ELSE SUBSET D) :
+           /\ st' = [p \in Peer |-> IF p \in R THEN "initial" ELSE st[p]]
+           /\ dial' = [p \in Peer |-> dial[p] \/ p \in R]                  \* reconnect(): Io::Connect
     /\ applied' = <<>>
     /\ Log(<<"idle">>)
     /\ UNCHANGED <<link, wire, routing>>
